@@ -2,7 +2,7 @@ INIT MCInit
 NEXT MCNext
 CONSTANTS
   K = 2
-  Alpha = {97, 65}
+  Alpha = {97, 65, 32}
   MaxLen = 2
   DumpEdges = TRUE
 INVARIANTS TypeOK Laws
